@@ -16,7 +16,7 @@ pub struct C05;
 fn op_list() -> Vec<String> {
     let mut v = ops_ff::ff_ops();
     v.extend(ops_ff::big_ops());
-    v
+    crate::ops::dev_filter(v)
 }
 
 impl Check for C05 {
@@ -61,7 +61,7 @@ impl Check for C05 {
                 }
             }
         };
-        opcheck::to_json(&Scn { case, fault_seed: rng.u64(), n_plans, only: None })
+        opcheck::to_json(&Scn { case, fault_seed: rng.u64(), n_plans, only: None, only_late: None })
     }
     fn execute(&self, scn: &Value, st: &mut Stats) -> Verdict {
         let s: Scn = match serde_json::from_value(scn.clone()) {
